@@ -15,7 +15,7 @@ INFO = {
     "trusted_base": ["pyvc heap encoding (field arrays; containers unshared)", "z3", "rtc reference semantics"],
 }
 
-KINDS = ["signal", "slice", "concat", "portref", "noconn", "bundle", "bundleref", "anon"]
+KINDS = ["signal", "slice", "concat", "portref", "noconn", "bundle", "bundleref", "anon", "dict"]
 
 
 def universe():
@@ -47,6 +47,8 @@ def universe():
         "bundle": [bi, B(name="bj")],
         "bundleref": [bi.x, bi.y],
         "anon": [h.AnonymousBundle(x=t, y=s[0]), dict(x=t, y=t)],
+        # ONE dictionary object, handed over again and again; using it as object #1 changes its contents first
+        "dict": [dict(x=t, y=s[1])],
     }
     return [i0, i1], other, conns
 
@@ -79,7 +81,16 @@ def check_history(hist):
     view = {}        # (inst idx, port) -> object   (the specification's view)
     for step, (op, ii, port, kind, which) in enumerate(hist):
         inst = insts[ii]
-        c = conns[kind][which]
+        if kind == "dict":
+            c = conns["dict"][0]
+            if which == 1:
+                c["x"] = conns["signal"][1] if c["x"] is conns["signal"][0] else conns["signal"][0]
+            if op == "replace":
+                import hdl21 as h
+                c = h.AnonymousBundle(**c)
+                allconn.append(c)
+        else:
+            c = conns[kind][which]
         if isinstance(c, dict) and op == "replace":
             # replace() takes Connectables only; the dict shorthand is a feature of connect / call / setattr
             import hdl21 as h
@@ -113,7 +124,7 @@ def check_history(hist):
         if op == "disconnect":
             view.pop((ii, port), None)
         else:
-            view[(ii, port)] = c
+            view[(ii, port)] = dict(c) if isinstance(c, dict) else c     # a dictionary means what it held when connected
         if r is not exp_ret:
             return ("post.result", f"{op} returned {r!r}, expected {exp_ret!r} at step {step} of {hist!r}")
         # whole view
@@ -151,6 +162,7 @@ def elab_histories(rnd, n, maxlen):
                                                                                               ("bit", 1), ("cat", 0)]
     tg += [("held", i, p) for i in range(3) for p in E_PORTS] + [("catref", i, p) for i in range(3) for p in E_PORTS]
     tg += [("bref", 0), ("bref", 1)]
+    tg += [("refbit", i, p) for i in range(3) for p in E_PORTS]
     for _ in range(n):
         L = rnd.randint(2, maxlen)
         yield tuple((rnd.choice(E_FORMS + ("disconnect",)), rnd.randrange(3), rnd.choice(E_PORTS), rnd.choice(tg))
@@ -188,6 +200,13 @@ def small_elab_histories():
             for selfref in (("ref", 0, "a"), ("held", 0, "a")):
                 yield (("setattr", 0, "a", x), ("setattr", 1, "a", ("ref", 0, "a")), (f, 0, "a", selfref))
                 yield (("setattr", 0, "a", x), (f, 0, "a", selfref), ("setattr", 1, "a", ("ref", 0, "a")), ("setattr", 2, "a", x))
+    # bit 0 of a port REFERENCE, taken while the port is on X; the port re-connected (or disconnected) afterwards
+    for x in xs:
+        for y in ys:
+            for f in ("setattr", "call", "replace", "connect"):
+                yield (("setattr", 0, "a", x), ("setattr", 1, "a", ("refbit", 0, "a")), (f, 0, "a", y))
+        yield (("setattr", 0, "a", x), ("setattr", 1, "a", ("refbit", 0, "a")), ("disconnect", 0, "a", None))
+        yield (("setattr", 0, "a", x), ("setattr", 1, "a", ("refbit", 0, "a")), ("disconnect", 0, "a", None), ("setattr", 0, "a", ("sig", 1)))
     for y in ys:
         yield (("setattr", 1, "a", ("ref", 0, "a")), ("setattr", 1, "a", ("sig", 2)), ("setattr", 0, "a", y))
         yield (("setattr", 1, "a", ("ref", 0, "a")), ("disconnect", 1, "a", None), ("setattr", 0, "a", y))
@@ -219,6 +238,8 @@ def check_elab_history(hist):
             return held[(t[1], t[2])]
         if t[0] == "catref":
             return h.Concat(held[(t[1], t[2])])
+        if t[0] == "refbit":
+            return getattr(insts[t[1]], t[2])[0]       # bit 0 of whatever that (one-bit) port ends up on
         if t[0] == "bit":
             return bus[t[1]]
         if t[0] == "cat":
@@ -229,7 +250,7 @@ def check_elab_history(hist):
     w = {"elab_history": repr(hist)}
     for step, (op, i, p, t) in enumerate(hist):
         inst = insts[i]
-        if t is not None and t[0] == "catref" and (t[1], t[2]) == (i, p):
+        if t is not None and t[0] in ("catref", "refbit") and (t[1], t[2]) == (i, p):
             continue                                  # a port connected to a concatenation of itself: declares no net at all
         # (a port connected to a reference to ITSELF - `i.p = i.p` - is a connection like any other: it replaces what the
         #  port was tied to, and the port, with everything referring to it, ends up on a net of its own)
@@ -263,7 +284,7 @@ def check_elab_history(hist):
         else:
             view[(i, p)] = t
     # completion: every port explicitly connected, or referenced by a connection that is still live
-    referenced = {(t[1], t[2]) for t in view.values() if t[0] in ("ref", "held", "catref")}
+    referenced = {(t[1], t[2]) for t in view.values() if t[0] in ("ref", "held", "catref", "refbit")}
     for i in range(3):
         for p in E_PORTS:
             if (i, p) not in view and (i, p) not in referenced:
@@ -276,11 +297,11 @@ def check_elab_history(hist):
     # a mapping is not a valid end state (plain reference cycles are: they share one implicit signal)
     def cyclic_through_concat(start):
         seen, cur, through = set(), start, False
-        while cur in view and view[cur][0] in ("ref", "held", "catref"):
+        while cur in view and view[cur][0] in ("ref", "held", "catref", "refbit"):
             if cur in seen:
                 return through
             seen.add(cur)
-            through = through or view[cur][0] == "catref"
+            through = through or view[cur][0] in ("catref", "refbit")
             cur = (view[cur][1], view[cur][2])
         return False
     if any(cyclic_through_concat(k) for k in view):
@@ -303,7 +324,7 @@ def check_elab_history(hist):
     for (i, p), t in view.items():
         if t[0] == "sig":
             union(("dev", i, p), ("sig", t[1]))
-        elif t[0] in ("ref", "held", "catref"):
+        elif t[0] in ("ref", "held", "catref", "refbit"):
             union(("dev", i, p), ("dev", t[1], t[2]))
         elif t[0] in ("bit", "cat"):
             union(("dev", i, p), ("bus", t[1]))
@@ -360,8 +381,8 @@ def run(ctx):
         "operation-histories", cases,
         lambda hcase: (lambda r: None if r is None else (f"hdl21.instance:history/{r[0]}", r[1],
                                                        {"history": repr(hcase)}))(check_history(hcase)),
-        rule="sequences of call/setattr/connect/replace/disconnect over 2 instances x 3 ports (one bundle-valued) x 8 "
-             "connectable kinds x 2 objects per kind; exhaustive 2-3 step family + seeded random histories; after every "
+        rule="sequences of call/setattr/connect/replace/disconnect over 2 instances x 3 ports (one bundle-valued) x 9 "
+             "connectable kinds (incl. one dictionary object re-used after its contents changed) x 2 objects per kind; exhaustive 2-3 step family + seeded random histories; after every "
              "step: returned value, whole conns view, Inv_conn, Inv_refs; distinct = distinct history; non-trivial = "
              "length >= 2",
         bound="length<=%d" % (6 if thorough else 4), key_of=repr, nontrivial=lambda hcase: len(hcase) >= 2)
@@ -369,7 +390,7 @@ def run(ctx):
     ctx.run_bounded(
         "elaborated-histories", cases, check_elab_history,
         rule="call/setattr/connect/replace/disconnect histories over 3 instances x 2 scalar ports with signals, bus "
-             "bits, concatenations, no-connects and port references (taken while the referred port is on anything, "
+             "bits, concatenations, no-connects, port references and bit 0 of a port reference (taken while the referred port is on anything, "
              "re-connected afterwards) as replaced and replacing objects; completed to a valid mapping, exported, and "
              "the exported nets compared with the partition computed from the history alone; exhaustive "
              "reference-then-reconnect family + seeded random histories",
